@@ -34,6 +34,11 @@ def run(R):
         for k in range(nsec):
             i = rng.randrange(1, len(cur) - 1)
             nxt = cur[:i] + [(b"new%d_%d" % (k, rng.randrange(99)), "L")] + cur[i + 1:]
+            if rng.random() < 0.4:
+                # a second change far enough away to make a second hunk: whether a backup is due is a matter of every hunk, not of the last one
+                j = (i + 6) % len(cur)
+                if 0 < j < len(cur) - 1 and abs(j - i) >= 6:
+                    nxt = nxt[:j] + [(b"also%d_%d" % (k, rng.randrange(99)), "L")] + nxt[j + 1:]
             secs.append(emit.unified_text(gen.make_hunks(cur, nxt, 2), b"f", b"f"))
             cur = nxt
         text = b"".join(secs)
